@@ -189,6 +189,12 @@ fn run_search(ctx: &mut Ctx, key: String, label: &str, v: &Variant, data: &[u8],
     if ctx.cache.len() > 512 {
         ctx.cache.clear();
     }
+    // A roll buffer that has grown stays grown: variants with a tiny capacity get a fresh searcher every
+    // time; the others are reused across scenarios (searchers are meant to be reused, state leaking from
+    // one search into the next would show).
+    if v.cap.is_some() {
+        ctx.cache.remove(&key);
+    }
     if !ctx.cache.contains_key(&key) {
         match build_searcher(label, &v.cfg, v.strat == "mmap", v.cap, v.dbuf) {
             Ok(s) => {
